@@ -33,9 +33,7 @@ THEOREMS = [
     'CC.C10_sources_length',
     'CC.C10_container',
     'CC.C10_unknown_node_zero_row',
-    'CC.C10_columns_follow_sources_partial',
-    'CC.C10_interleaved_counterexample',
-    'CC.C10_inductor_order_counterexample',
+    'CC.C10_columns_follow_sources',
 ]
 OPEN_STATEMENTS = ['CC.C10_augmented_is_circuit_statement', 'CC.C10_transfer_statement']
 ASSUMPTIONS = [
@@ -340,12 +338,12 @@ CORPUS = [
         dict(kind='V', id='Vs', n1='1', n2='0', val=1.0), dict(kind='R', id='R1', n1='1', n2='2', val=2.0),
         dict(kind='L', id='L', n1='2', n2='3', val=0.5), dict(kind='R', id='R2', n1='3', n2='0', val=4.0),
         dict(kind='I', id='Is', n1='0', n2='3', val=1.0)]),
-    # DESIGN §6: voltage source 'A', inductor 'M', current source 'Z' (same circuit)
+    # regression (fixed by 3361ab5): voltage source 'A', inductor 'M', current source 'Z' (same circuit)
     dict(ground='0', ground_pos=5, comps=[
         dict(kind='V', id='A', n1='1', n2='0', val=1.0), dict(kind='R', id='R1', n1='1', n2='2', val=2.0),
         dict(kind='L', id='M', n1='2', n2='3', val=0.5), dict(kind='R', id='R2', n1='3', n2='0', val=4.0),
         dict(kind='I', id='Z', n1='0', n2='3', val=1.0)]),
-    # inductors listed in non-alphabetic order (values are taken from the dictionary order, columns alphabetically)
+    # regression (fixed by 3361ab5): inductors listed in non-alphabetic order
     dict(ground='0', ground_pos=0, comps=[
         dict(kind='V', id='Vq', n1='1', n2='0', val=1.0), dict(kind='R', id='R1', n1='1', n2='2', val=2.0),
         dict(kind='L', id='L2', n1='3', n2='0', val=0.25), dict(kind='R', id='R2', n1='3', n2='0', val=4.0),
@@ -369,7 +367,7 @@ CORPUS = [
 
 def run(ctx, out):
     out.rule = ('RLC + ideal V/I-source circuits (connected multigraphs, 1–5 reactive elements, dyadic values, adversarial node '
-                'labels, terminal orders and listing orders; 60 % with block-wise source names, 40 % with fully adversarial '
+                'labels, terminal orders and listing orders; 40 % with block-wise source names, 60 % with fully adversarial '
                 'names); a case is non-trivial when the circuit is non-degenerate (DC network and infinite-frequency network '
                 'both well-posed, decided exactly); distinct by (node count, kind multiset, names-interleave, inductor-order)')
     for desc in CORPUS:
@@ -381,7 +379,7 @@ def run(ctx, out):
     reserve = 8 if ctx.quick else 60
     for k in range(n_random):
         if ctx.time_left() < reserve: out.notes.append(f'stopped after {k} random cases (budget)'); break
-        safe = rng.random() < 0.6
+        safe = rng.random() < 0.4
         for _ in range(40):                      # rejection sampling into the domain (decided exactly)
             desc = gs.random_desc(rng, safe=safe)
             ok, why = gs.nondegenerate(ctx.driver, desc)
